@@ -12,7 +12,7 @@ Feats == TLCEval([i \in DOMAIN Groups |->
             ELSE <<>>])
 Count(f) == SumRange([i \in DOMAIN Feats |-> Cardinality({j \in DOMAIN Feats[i] : Feats[i][j] = f})], 1, Len(Feats))
 Verdicts == {"accept", "reject", "either"}
-Kinds == {"key-has-bound-var", "nested-keys", "key-in-value", "compound-key", "leaf-key", "no-occurrence"}
+Kinds == {"identity-pair", "key-has-bound-var", "nested-keys", "key-in-value", "compound-key", "leaf-key", "no-occurrence"}
 ASSUME ndJsonSerialize(IOEnv.DESC, <<W>>)
 ASSUME ndJsonSerialize(IOEnv.OUT, Groups)
 ASSUME PrintT(<<"EMITTED", NCases, NShallow, Len(Groups)>>)
